@@ -40,6 +40,13 @@ def worker(kp, job):
             if rng.random() < 0.7:
                 o['exclude'] = rng.sample(CATS, rng.randint(1, 5))
             optsets.append(o)
+        # selections of every size: include / exclude sets whose size is drawn from the whole range 0 .. all categories
+        for _ in range(3):
+            o = {'include': rng.sample(CATS, rng.randint(9, len(CATS)))}
+            if rng.random() < 0.4:
+                o['exclude'] = rng.sample(CATS, rng.randint(1, len(CATS) - 1))
+            optsets.append(o)
+        optsets.append({'exclude': rng.sample(CATS, rng.randint(6, len(CATS) - 1))})
         optsets.append({'include': list(CATS)})
         optsets.append({'exclude': []})
         # nothing selected: an empty include list is a selection of nothing (not "no filter")
